@@ -1016,12 +1016,26 @@ impl<'p> Exec<'p> {
         Ok(())
     }
 
+    /// C05 through the writer API only (used where the index cannot be expected to open).
+    fn check_store_full_writer_only(&mut self, ix: usize) -> R<()> {
+        let saved = self.world.indexes[ix].state;
+        self.world.indexes[ix].state = Staleness::Stale;
+        let r = self.check_store_full(ix);
+        self.world.indexes[ix].state = saved;
+        r
+    }
+
     /// C06: need_build and Reader::open under every metric agree with the automaton.
     fn check_staleness(&mut self, ix: usize) -> R<()> {
         self.check_staleness_pub(ix, &[])
     }
 
     pub fn check_staleness_pub(&mut self, ix: usize, extra: &[&'static str]) -> R<()> {
+        if self.txn_had_failed_build && self.wtxn.is_some() {
+            // a failed build consumed the updated marks: what need_build / open say until the abort is
+            // outside every property's quantifier
+            return Ok(());
+        }
         let im = self.world.indexes[ix].clone();
         let db = self.db();
         let wrc = self.writer_rc(ix);
@@ -1148,6 +1162,83 @@ impl<'p> Exec<'p> {
         }
     }
 
+    /// Engine F: a build cancelled at `cancel_at`, abort, the pending steps applied again, and a retry on the
+    /// SAME `ArroyBuilder` object whose cancellation closure was replaced by one that never cancels
+    /// (an application keeping its configured builder). Returns both results.
+    #[allow(clippy::too_many_arguments)]
+    pub fn raw_build_retry_same_builder(
+        &mut self,
+        ix: usize,
+        n_trees: Option<usize>,
+        split_after: Option<usize>,
+        mem: Option<usize>,
+        seed: u64,
+        cancel_at: u64,
+        pending: &[Step],
+    ) -> R<(BuildResult, BuildResult)> {
+        self.ensure_txn();
+        let im = self.world.indexes[ix].clone();
+        let budget = 2_000_000 + 1000 * im.items.len() as u64 * n_trees.unwrap_or(20).max(1) as u64;
+        let c1 = Arc::new(BuildCtx::new(self.ctx.clone(), Some(cancel_at), budget));
+        let c2 = Arc::new(BuildCtx::new(self.ctx.clone(), None, budget));
+        let wrc = self.writer_rc(ix);
+        let to_res = |r: std::thread::Result<arroy::Result<()>>| match r {
+            Ok(Ok(())) => BuildResult::Ok,
+            Ok(Err(e)) => BuildResult::Err(err_kind(&e), e.to_string()),
+            Err(p) => BuildResult::Panic(panic_msg(p)),
+        };
+        let mut out: Option<R<(BuildResult, BuildResult)>> = None;
+        with_metric!(im.metric, D, {
+            let w: &Writer<D> = wrc.downcast_ref::<Writer<D>>().expect("writer type");
+            let mut rng = StdRng::seed_from_u64(seed);
+            let mut b = w.builder(&mut rng);
+            if let Some(n) = n_trees {
+                b.n_trees(n);
+            }
+            if let Some(sa) = split_after {
+                b.split_after(sa);
+            }
+            if let Some(m) = mem {
+                b.available_memory(m);
+            }
+            let (p1, p2) = (c1.clone(), c1.clone());
+            b.cancel(move || p1.poll());
+            b.progress(move |p| p2.progress(p));
+            let r1 = {
+                let wtxn = self.wtxn.as_mut().unwrap();
+                to_res(catch_unwind(AssertUnwindSafe(|| b.build(wtxn))))
+            };
+            // abort, and stage the same pending operations again
+            if let Some(t) = self.wtxn.take() {
+                t.abort();
+                self.out.stats.aborts += 1;
+            }
+            self.world = self.committed.clone();
+            let mut staged = Ok(());
+            for st in pending {
+                if let Err(e) = self.step(st) {
+                    staged = Err(e);
+                    break;
+                }
+            }
+            out = Some(match staged {
+                Err(e) => Err(e),
+                Ok(()) => {
+                    self.ensure_txn();
+                    let (q1, q2) = (c2.clone(), c2.clone());
+                    b.cancel(move || q1.poll());
+                    b.progress(move |p| q2.progress(p));
+                    let wtxn = self.wtxn.as_mut().unwrap();
+                    let r2 = to_res(catch_unwind(AssertUnwindSafe(|| b.build(wtxn))));
+                    Ok((r1, r2))
+                }
+            });
+        });
+        self.last_build_polls = c1.polls.load(Ordering::SeqCst);
+        self.out.stats.polls += self.last_build_polls + c2.polls.load(Ordering::SeqCst);
+        out.unwrap()
+    }
+
     fn do_build_step(
         &mut self,
         ix: usize,
@@ -1158,6 +1249,7 @@ impl<'p> Exec<'p> {
         fault: &Fault,
     ) -> R<()> {
         self.ensure_txn();
+        let tainted_before = self.txn_had_failed_build;
         self.last_mem_hint = mem;
         self.ctx.leaf_batches.store(0, Ordering::SeqCst);
         let before_model = self.world.indexes[ix].clone();
@@ -1189,6 +1281,14 @@ impl<'p> Exec<'p> {
                     m.builds += 1;
                 }
                 self.last_build = Some(res);
+                if self.txn_had_failed_build {
+                    // a retry in the transaction of a failed build: no property promises a sound forest here,
+                    // but the item store and what a reader says about it must still be what was written (C05)
+                    self.out.stats.probe("retry_build_in_the_transaction_of_a_failed_build");
+                    self.check_store_full(ix)?;
+                    self.op_boundary();
+                    return Ok(());
+                }
                 if mem.is_some() {
                     self.out.stats.probe("build_with_memory_hint");
                     if self.ctx.cut_batches.swap(0, Ordering::SeqCst) > 0 {
@@ -1198,12 +1298,22 @@ impl<'p> Exec<'p> {
                 self.after_build(ix, n_trees, split_after, mem, before.as_ref())?;
                 self.post_op(ix, before, false, "build")?;
             }
+            BuildResult::Err(..) | BuildResult::Panic(..) if tainted_before => {
+                // a retry inside the transaction of a failed build may fail too: nothing is promised there
+                self.out.stats.builds_failed += 1;
+                self.out.stats.probe("retry_in_tainted_transaction_failed");
+                self.last_build = Some(res);
+                self.check_store_full_writer_only(ix)?;
+            }
             BuildResult::Err(kind, msg) => {
                 self.out.stats.builds_failed += 1;
                 self.txn_had_failed_build = true;
                 let kind = kind.clone();
                 let msg = msg.clone();
                 self.last_build = Some(res);
+                if !matches!(fault, Fault::None) {
+                    self.check_store_full_writer_only(ix)?;
+                }
                 if matches!(fault, Fault::None) {
                     let mut props = vec!["C14"];
                     if self.profiles[ix].is_some_and(|p| p.degenerate()) {
@@ -1355,12 +1465,16 @@ impl<'p> Exec<'p> {
         let empty = DecodedIndex::default();
         let di = dec.get(&im.index).unwrap_or(&empty);
         // C01
+        // a broken forest is C01's finding; the queries still run on it (an unreachable item or a dangling
+        // reference is also C02's and C03's business), then the run ends
+        let mut forest_broken = false;
         let fw: ForestWalk = match walk_forest(di, &im.ids()) {
             Ok(fw) => fw,
             Err(e) => {
                 let props = self.ctx_props("C01", ix);
                 self.report(&props, "forest", format!("index {} ({:?}, dim {}, {} items): {e}", im.index, im.metric, im.dim, im.items.len()))?;
-                return Err(Stop::Unevaluable("forest invalid".into()));
+                forest_broken = true;
+                ForestWalk::default()
             }
         };
         // metadata fields
@@ -1394,7 +1508,7 @@ impl<'p> Exec<'p> {
         // C04 first sentence
         let accurate = im.accurate;
         let mut c04 = None;
-        if accurate && (im.items.len() <= 400 || self.focus == "C04") {
+        if !forest_broken && accurate && (im.items.len() <= 400 || self.focus == "C04") {
             match query::c04_audit(im.metric, di) {
                 Ok(rep) => {
                     self.out.stats.placements_checked += rep.placements_checked;
@@ -1460,6 +1574,11 @@ impl<'p> Exec<'p> {
             // our walker accepted the forest, upstream's rejected it
             self.report(&["C01"], "upstream_walker_disagrees", format!("index {}: assert_validity panicked: {msg}", im.index))?;
         }
+        let mut findings = findings;
+        if forest_broken {
+            // only what a search shows counts here; the structural audit of C04 / C15 needs a sound forest
+            findings.retain(|(p, _, _)| *p == "C02" || *p == "C03");
+        }
         for (p, k, detail) in findings {
             let props = match p {
                 "C02" => self.ctx_props("C02", ix),
@@ -1473,6 +1592,9 @@ impl<'p> Exec<'p> {
                 other => vec![other],
             };
             self.report(&props, k, detail)?;
+        }
+        if forest_broken {
+            return Err(Stop::Unevaluable("forest invalid".into()));
         }
         Ok(())
     }
